@@ -339,7 +339,12 @@ class MovingWindow(BackgroundService):
                 if self._resampler and self._resampler_sender:
                     await self._resampler_sender.send(sample)
                 else:
-                    self._buffer.update(sample)
+                    try:
+                        self._buffer.update(sample)
+                    except IndexError as err:
+                        # A sample that is older than the window can't be stored, but it
+                        # must not stop the window from following the samples after it.
+                        _logger.warning("Sample dropped by the moving window: %s", err)
 
         except asyncio.CancelledError:
             _logger.info("MovingWindow task has been cancelled.")
